@@ -342,6 +342,41 @@ def fuzz_contract(qual, seed=0, n=300, registry=None):
     return None, tried
 
 
+def reach_witness(qual, seed=0, n=300, registry=None):
+    """an input that satisfies the precondition natively, on which the real function returns normally and its contract holds: a concrete
+    witness that the hypotheses of the function's obligations are satisfiable (used when the solver cannot build a model of quantified
+    hypotheses for the cover / canary checks)"""
+    import random
+    from . import pools
+    registry = registry or contract.Registry()
+    c = registry.get(qual)
+    if c is None:
+        return None
+    rng = random.Random('w-%s-%d' % (qual, seed))
+    gens = list(pools.function_inputs(c.target, seed)) or None
+    if gens is None and any(isinstance(k, kinds.KObj) for k in c.param_kinds.values()):
+        return None
+    for k in range(n):
+        if gens is not None:
+            if k >= len(gens):
+                break
+            inp = gens[k]
+        else:
+            inp = {p_: random_value(c.param_kinds[p_], rng) for p_ in c.param_names if c.param_kinds.get(p_) is not None}
+            arrs = [p_ for p_ in inp if isinstance(inp[p_], list) and inp[p_] and not isinstance(inp[p_][0], list)]
+            if len(arrs) > 1 and rng.random() < 0.7:
+                m = min(len(inp[p_]) for p_ in arrs)
+                for p_ in arrs:
+                    inp[p_] = inp[p_][:m]
+        try:
+            r = replay_function(c.target, inp, registry)
+        except Exception:
+            continue
+        if r.get('pre_ok') and not r['confirmed'] and not r.get('detail') and str(r.get('outcome', '')).startswith("('return'"):
+            return inp
+    return None
+
+
 # ----------------------------------------------------------------------------- translation cross-check (engine in concrete mode vs CPython)
 def unlift(v, st):
     import fractions
